@@ -129,8 +129,14 @@ RelOps == {"sample", "copysign", "is_sign_negative", "is_sign_positive", "is_pos
 \* preconditions the library states (std contract copied with an assert!)
 Pre(op, N, ES, x) == op = "clamp" => (PLe(N, ES, x[2], x[3]))
 
+\* public operations whose VALUE no listed property constrains (only totality, C16): they must return
+\* normally, whatever they return.  (atan2: quadrant conventions; the rest: outside the properties.)
+UnspecOps == {"exp10", "tanh", "asinh", "acosh", "to_degrees", "to_radians", "sin_cos", "atan2"}
+
 Accept(op, sp, N, ES, x, r) ==
-  IF op \in FnOps THEN r = Fn(op, sp, N, ES, x) ELSE Rel(op, sp, N, ES, x, r)
+  IF op \in FnOps THEN r = Fn(op, sp, N, ES, x)
+  ELSE IF op \in UnspecOps THEN TRUE
+  ELSE Rel(op, sp, N, ES, x, r)
 
 -----------------------------------------------------------------------------
 (* Actions *)
